@@ -8,6 +8,7 @@ import (
 	"fmt"
 	"go/token"
 	"math/big"
+	"os"
 	"sort"
 	"strings"
 	"time"
@@ -90,6 +91,9 @@ type pathRun struct {
 	anyTab   map[*value]value
 	merrMsg  map[*value]string
 	observing bool
+	fitsTab  map[*smt.Term]*big.Int
+	unchecked bool
+	encTab   map[*smt.Term]geGhost
 	canonMemo map[[2]int]*smt.Term
 	hashIntApps []hashIntApp
 }
@@ -168,7 +172,23 @@ func (p *pathRun) fork(cond *smt.Term, why string) bool {
 		p.finish("bound", fmt.Sprintf("decision depth %d exceeded at %s", p.eng.MaxDepth, why))
 	}
 	p.res.Forks++
+	tf := time.Now()
+	defer func() {
+		if d := time.Since(tf); d > 700*time.Millisecond && os.Getenv("GOSYM_SLOW") != "" {
+			fmt.Fprintf(os.Stderr, "  [slow fork %v] %s at %s: %.200s\n", d.Round(time.Millisecond), why, p.site(p.lastFr), cond.String())
+		}
+	}()
 	rt := p.feas(cond)
+	if rt == smt.Sat {
+		p.unchecked = false
+	}
+	if rt == smt.Unsat && p.unchecked {
+		// assumptions were added without a feasibility check: the path itself may be infeasible
+		if p.feas(p.ctx.Not(cond)) == smt.Unsat {
+			p.finish("pruned", "assumptions infeasible (found at "+why+")")
+		}
+		p.unchecked = false
+	}
 	if rt == smt.Unsat {
 		p.trail = append(p.trail, false)
 		p.addPC(p.ctx.Not(cond))
@@ -270,12 +290,22 @@ func (p *pathRun) assume(label string, cond *smt.Term) {
 		p.addPC(cond)
 		return
 	}
+	// lazy: the feasibility of the strengthened path condition is established at the next
+	// fork (both sides infeasible = pruned) or at the next vacuity witness
 	p.addPC(cond)
-	r := p.feas(nil)
-	if r == smt.Unsat {
-		p.finish("pruned", "assume "+label)
-	}
+	p.unchecked = true
 	p.trail = append(p.trail, true)
+}
+
+// checkFeasible settles a pending feasibility question (after lazy assumptions).
+func (p *pathRun) checkFeasible(why string) {
+	if !p.unchecked || len(p.trail) < len(p.prefix) {
+		return
+	}
+	if p.feas(nil) == smt.Unsat {
+		p.finish("pruned", "assumptions infeasible (found at "+why+")")
+	}
+	p.unchecked = false
 }
 
 func (p *pathRun) modelStrings(m map[string]*big.Int) map[string]string {
